@@ -105,7 +105,7 @@ func main() {
 			if tier == "thorough" {
 				return 18 * time.Minute
 			}
-			return 80 * time.Second
+			return 4 * time.Minute
 		},
 		Run: run, Replay: replay, Evidence: evidence,
 		Assumptions: []string{
